@@ -183,6 +183,15 @@ fn run_one(rec: &Value, poison: bool, with_internals: bool) -> Value {
 
 fn main() {
     let args: Vec<String> = std::env::args().collect();
+    if arg_flag(&args, "--one") {
+        // child of --fresh: one record on stdin, its output record on stdout
+        std::panic::set_hook(Box::new(|_| {}));
+        let mut line = String::new();
+        std::io::stdin().read_line(&mut line).unwrap();
+        let r: Value = serde_json::from_str(&line).expect("record");
+        println!("{}", run_one(&r, false, true));
+        return;
+    }
     let inp = arg_value(&args, "--in").expect("--in");
     let outp = arg_value(&args, "--out").expect("--out");
     let threads: usize = arg_value(&args, "--threads").map(|s| s.parse().unwrap()).unwrap_or(1);
@@ -197,6 +206,45 @@ fn main() {
     }
     let recs = read_records(&inp);
     let mut out = Out::create(&outp);
+    if arg_flag(&args, "--fresh") {
+        // every record in a PROCESS OF ITS OWN (no earlier call, no other thread, fresh statics and thread-locals):
+        // the reference for "a pure function of the bytes and the exponent"
+        use std::io::Write;
+        use std::process::{Command, Stdio};
+        let exe = std::env::current_exe().unwrap();
+        let recs = std::sync::Arc::new(recs);
+        let workers = 8usize;
+        let mut handles = Vec::new();
+        for t in 0..workers {
+            let recs = recs.clone();
+            let exe = exe.clone();
+            handles.push(std::thread::spawn(move || {
+                let mut v = Vec::new();
+                for k in (t..recs.len()).step_by(workers) {
+                    let mut child = Command::new(&exe).arg("--one").stdin(Stdio::piped()).stdout(Stdio::piped()).spawn().expect("spawn");
+                    {
+                        let mut si = child.stdin.take().unwrap();
+                        writeln!(si, "{}", recs[k]).unwrap();
+                    }
+                    let o = child.wait_with_output().expect("child");
+                    let text = String::from_utf8_lossy(&o.stdout).to_string();
+                    let val: Value = serde_json::from_str(text.trim()).unwrap_or_else(|_| json!({"id": recs[k]["id"], "out": {"kind": "died", "bits": []}}));
+                    v.push((k, val));
+                }
+                v
+            }));
+        }
+        let mut all: Vec<(usize, Value)> = Vec::new();
+        for h in handles {
+            all.extend(h.join().unwrap());
+        }
+        all.sort_by_key(|x| x.0);
+        for (_, o) in all {
+            out.line(&o);
+        }
+        out.flush();
+        return;
+    }
     if threads <= 1 {
         for r in &recs {
             if markers {
